@@ -57,6 +57,10 @@ def family_map(env, name, N, family):
         mask = [i == q for i in range(N)]
         g, p = embedded_table(sg, sp, mask, N)
         return g, p, ref.symplectic(sg)
+    if family == 'frame':
+        # Pauli frame: identity table, symbolic signs (conjugation by a Pauli operator)
+        p = env.signs(name + '_sign', (2 * N,))
+        return oarr(np.eye(2 * N, dtype=int)), p, True
     if family.startswith('fixed:'):
         tab = FIXED[family]
         p = env.signs(name + '_sign', (2 * N,))
@@ -195,6 +199,26 @@ def h_sequential(env, N, fam_b, fam_c, with_inverse=True):
         env.goal('inverse_of_composition_phases', arr_eq(x.ps, y.ps))
 
 
+def h_self_compose(env, N):
+    """a map composed with itself / inverted twice in a row (same object as both operands, repeated calls)"""
+    M = Mods(env)
+    mg = env.bits('map', (2 * N, 2 * N))
+    mp = env.signs('map_sign', (2 * N,))
+    env.assume(ref.symplectic(mg), 'map valid')
+    m = M.st.CliffordMap(mg.copy(), mp.copy())
+    r = env.run(lambda: (m.compose(m), m.inverse(), m.inverse()))
+    env.goal('no_exception', b_not(r.raised))
+    if r.value is None:
+        return
+    sq, i1, i2 = r.value
+    wg, wp = ref_compose(mg, mp, mg, mp)
+    env.goal('square_strings', arr_eq(sq.gs, wg))
+    env.goal('square_phases', arr_eq(sq.ps, wp))
+    env.goal('inverse_is_repeatable', b_and(arr_eq(i1.gs, i2.gs), arr_eq(i1.ps, i2.ps)))
+    env.goal('operand_unchanged', b_and(arr_eq(m.gs, mg), arr_eq(m.ps, mp)))
+    env.goal('results_are_distinct_objects', (i1 is not i2) and not np.shares_memory(i1.gs, i2.gs) and not np.shares_memory(sq.gs, m.gs))
+
+
 def S_(env, a):
     """fresh array of the right kind holding the (possibly derived) entries"""
     if env.symbolic:
@@ -255,6 +279,10 @@ def jobs(tier):
     J.append(dict(harness=('c04', 'h_sequential'), params=dict(N=1, fam_b='valid', fam_c='valid')))
     J.append(dict(harness=('c04', 'h_assoc'), params=dict(N=1, fams=['valid'] * 3)))
     fams2 = ['rotation', 'embed0', 'embed1']
+    for N in (1, 2):
+        for fb, fc in (('valid', 'frame'), ('frame', 'valid'), ('frame', 'frame')):
+            J.append(dict(harness=('c04', 'h_sequential'), params=dict(N=N, fam_b=fb, fam_c=fc), timeout_s=300, cost=10))
+        J.append(dict(harness=('c04', 'h_self_compose'), params=dict(N=N), timeout_s=300, cost=10))
     for f in fams2:
         wi = (tier == 'thorough') or f != 'rotation'
         J.append(dict(harness=('c04', 'h_sequential'), params=dict(N=2, fam_b='valid', fam_c=f, with_inverse=wi), timeout_s=300, cost=20))
